@@ -135,6 +135,14 @@ static void prop(Ctx &c) {
             if (sum_overflow || (run >> 64)) { ssize_t g = zck_get_data_length(z); if (g >= 0) F_("wrapped-data-length", "data length exceeds 64 bits but " + std::to_string(g) + " was reported"); }
             else { cmp_size("data-length", zck_get_data_length(z), run); ref::u128 tot = (ref::u128)h.total_size + run; if (!(tot >> 64)) cmp_size("total-length", zck_get_length(z), tot); }
         }
+        // ... nor when validation options are given after the fact (they describe what the caller expected, not the file)
+        if (c.gver >= 4 && fail_sig.empty() && h.meta_ok && c.rarely(5)) {
+            (void)!zck_set_ioption(z, ZCK_VAL_HEADER_LENGTH, (ssize_t)(h.total_size + 1 + c.draw(500))); if (zck_is_error(z)) (void)!zck_clear_error(z);
+            (void)!zck_set_ioption(z, ZCK_VAL_HEADER_HASH_TYPE, (ssize_t)((h.hash_type + 1) % 3)); if (zck_is_error(z)) (void)!zck_clear_error(z); c.label("options-set-after-open");
+            cmp_size("header-length(after late option)", zck_get_header_length(z), h.total_size); cmp_size("lead-length(after late option)", zck_get_lead_length(z), h.lead_size); cmp_size("full-hash-type(after late option)", zck_get_full_hash_type(z), h.hash_type);
+            cmp_hex("header-digest(after late option)", zck_get_header_digest(z), h.header_digest);
+            zckChunk *c1 = zck_get_first_chunk(z); if (c1) cmp_size("chunk-start(after late option)", zck_get_chunk_start(c1), h.total_size);
+        }
         // what the context reports about ITS file must not change when the context is used: paired with another file that holds the same
         // chunks at other offsets (zck_find_matching_chunks, the first step of a delta computation), starts, sizes and checksums are
         // still this file's
